@@ -69,7 +69,8 @@ class LoopSpec:
               havocked automatically)
     """
 
-    def __init__(self, inv, variant=None, havoc=(), unroll_first=0, frame=None, locals=None):
+    def __init__(self, inv, variant=None, havoc=(), unroll_first=0, frame=None, locals=None, entry=None):
+        self.entry = entry     # spec predicate proved at loop ENTRY only (e.g. "the deadline was computed from now")
         self.locals = dict(locals or {})   # name -> schema node: shape of a havocked local that is not a plain int/bool (e.g. None-or-int)
         self.inv = inv
         self.variant = variant
